@@ -1,5 +1,6 @@
 """C07 — with spooling on, an endpoint outage loses nothing that is not counted"""
 from . import tablegen as tg
+from . import common
 
 LEVEL_TEXT = ("Lean theorems Crng.Props.C07.conservation (all schedules of the goroutines' steps, faults, reconnects, under H1 = keepSafe's "
               "10 s assumption and H2 = getRedo after HandleData stopped), never_received_bound, backlog_bounded + drained_all_accounted, "
@@ -178,7 +179,7 @@ def run(ctx):
              ["Crng.Props.C07.conservation", "Crng.Props.C07.never_received_bound", "Crng.Props.C07.backlog_bounded", "Crng.Props.C07.drained_all_accounted",
               "Crng.Props.C07.inflight_replayed", "Crng.Props.C07.keepsafe_getall", "Crng.Props.C07.h2_needed", "Crng.Props.C07.h1_needed",
               "Crng.Props.C07.counters_exact"],
-             ties=["Crng.Tie.C07", "Crng.Tie.C06"])
+             ties=["Crng.Tie.C07", "Crng.Tie.C06", common.CODE_KEEPSAFE])
     rnd = ctx.rng("c07")
     n = ctx.scale(16, 160)
     cases = []
